@@ -42,6 +42,10 @@ def extra_checks(ft, tier, seed):
         out.append({"name": "finding.inplace-element-helper-readonly-property", "status": "known", "kind": "known finding (open)", "what": r["witness"]})
     elif "error" in r:
         out.append({"name": "finding.inplace-element-helper-readonly-property", "status": "error", "detail": r["error"]})
+    out.append(harness.standin("standin.extra-corpus", "bounded/spec_extra.py", ["--find", PROPERTY, "-", os.path.join(harness.VERIF, "replays", PROPERTY)],
+                               "usages outside the main corpus (tuple-valued attributes, nested updates failing half-way, containers with mutable values, "
+                               "keyed containers handed in whole, update_<attr>() with nothing to apply, chains of cached properties)",
+                               "the hand-written cases of bounded/spec_extra.py registered for this property"))
     return out
 
 
